@@ -244,12 +244,22 @@ func (g *schemaGenerator) generateDeclaredType(t *schemas.Type, scope nameScope)
 	if decl, ok := g.output.declsBySchema[t]; ok {
 		if t.Dereferenced {
 			if decl.Name != scope.string() {
-				decl := &codegen.AliasType{
+				alias := &codegen.AliasType{
 					Alias: scope.string(),
 					Name:  decl.Name,
 				}
 
-				g.output.file.Package.AddDecl(decl)
+				g.output.file.Package.AddDecl(alias)
+
+				// The alias holds its name like any declared type: a later type that wants the
+				// same name gets a suffix instead of being declared next to it.
+				if _, taken := g.output.declsByName[alias.Alias]; !taken {
+					g.output.declsByName[alias.Alias] = &codegen.TypeDecl{
+						Name:       alias.Alias,
+						Type:       &codegen.NamedType{Decl: decl},
+						SchemaType: t,
+					}
+				}
 			}
 		}
 
